@@ -101,6 +101,8 @@ type Program struct {
 	perIterationLoopVars bool // go.mod says go >= 1.22
 	TypeIDs              TypeReg
 	strIDs               map[string]int
+	renameCache          map[*FuncInfo]map[string]string
+	repair               map[string]*repairState // functions being re-verified with re-bound loop invariants (repair.go)
 }
 
 type FuncInfo struct {
@@ -158,6 +160,7 @@ type Unit struct {
 	entryPC       []Term
 	usesLocks     bool
 	knownLits     map[string]*litInfo
+	heldLits      []*litInfo // literals handed to callees that only store them ("opt holds-callbacks")
 	methodConsts  map[string]bool
 	recvActualTy  types.Type
 	calleeFacts   map[string]bool
@@ -1173,6 +1176,9 @@ func (u *Unit) loopBlock(s ast.Stmt) *Block {
 		return nil
 	}
 	owner := u.curFn[len(u.curFn)-1]
+	if rs := u.Prog.repair[owner.Key]; rs != nil && owner == u.FI {
+		return rs.blockFor(n, owner.Key)
+	}
 	b := u.Prog.Contracts.Get(owner.Key, fmt.Sprintf("loop %d", n))
 	if b != nil {
 		b.Bound = true
@@ -1447,9 +1453,23 @@ func (u *Unit) checkInvariants(env *Env, blk *Block, kind string, pos token.Pos,
 	if blk == nil {
 		return
 	}
+	rs := u.Prog.repair[u.FI.Key]
 	for i, c0 := range blk.Of("invariant") {
 		if c0.Label == "" {
 			c0.Label = fmt.Sprintf("inv%d", i)
+		}
+		if rs != nil && strings.HasPrefix(c0.Label, "L") {
+			// a candidate of the re-binding run: one that does not even bind here is dropped for this loop
+			if rs.dead[loopName+"/"+c0.Label] {
+				continue
+			}
+			t, err := u.trySpec(c0, env, nil)
+			if err != "" {
+				rs.dead[loopName+"/"+c0.Label] = true
+				continue
+			}
+			u.assert(env, fmt.Sprintf("%s/%s/%s", loopName, kind, c0.Label), kind, pos, c0.Text, t)
+			continue
 		}
 		for _, c := range u.splitClause(c0) {
 			t := u.specExpr(c, env, nil)
@@ -1462,7 +1482,20 @@ func (u *Unit) assumeInvariants(env *Env, blk *Block) {
 	if blk == nil {
 		return
 	}
+	rs := u.Prog.repair[u.FI.Key]
 	for _, c := range blk.Of("invariant") {
+		if rs != nil && strings.HasPrefix(c.Label, "L") {
+			if rs.deadAny(c.Label, blk) {
+				continue
+			}
+			t, err := u.trySpec(c, env, nil)
+			if err != "" {
+				rs.dead[fmt.Sprintf("loop%s/%s", strings.TrimPrefix(blk.Sub, "loop "), c.Label)] = true
+				continue
+			}
+			env.assume(t)
+			continue
+		}
 		env.assume(u.specExpr(c, env, nil))
 	}
 }
@@ -1528,11 +1561,33 @@ func (u *Unit) execFor(st *ast.ForStmt, env *Env, label string) []Outcome {
 	if blk == nil {
 		u.note(fmt.Sprintf("loop %s of %s has no invariant block (treated as invariant true)", lname, u.curFn[len(u.curFn)-1].Key))
 	}
+	// "for i := e; ...": invariants may call the loop variable _i, as they do for "for i := range x" (so that turning a range
+	// loop into an index loop keeps its invariants)
+	var ivar types.Object
+	if as, ok := st.Init.(*ast.AssignStmt); ok && as.Tok == token.DEFINE && len(as.Lhs) == 1 {
+		if o := u.keyObj(as.Lhs[0]); o != nil && isIntegerT(o.Type()) {
+			ivar = o
+		}
+	}
+	setI := func(e *Env) {
+		if ivar != nil {
+			if t, ok := e.vars[ivar]; ok && t.Sort == SInt {
+				e.alias["_i"] = t
+			}
+		}
+	}
+	clearI := func(e *Env) {
+		if ivar != nil {
+			delete(e.alias, "_i")
+		}
+	}
+	setI(env)
 	u.runGhostKind(env, blk, "ghostbefore")
 	u.checkInvariants(env, blk, "inv-init", st.Pos(), lname)
 	li := u.scanLoop(st.Body, st.Post, st.Cond)
 	li.modVars = append(li.modVars, u.ghostsSetIn(st)...)
 	u.havocLoop(env, li)
+	setI(env)
 	cut := len(env.pc)
 	u.assumeInvariants(env, blk)
 	var res []Outcome
@@ -1545,24 +1600,30 @@ func (u *Unit) execFor(st *ast.ForStmt, env *Env, label string) []Outcome {
 	for _, br := range branches {
 		if !br.truth {
 			u.exitSummary(br.env, blk, cut, lname, st.Pos())
+			clearI(br.env)
 			res = append(res, Outcome{env: br.env, kind: oNext})
 			continue
 		}
 		if blk != nil {
 			u.coverProbe(br.env, lname+"/cover/body-reachable", st.Pos(), "loop body reachable under the invariants")
 		}
+		clearI(br.env)
 		for _, o := range u.execBlock(st.Body.List, br.env) {
 			switch {
 			case o.kind == oNext || (o.kind == oContinue && (o.label == "" || o.label == label)):
 				e := o.env
+				setI(e)
 				u.runGhostSets(e, blk)
 				if st.Post != nil {
 					po := u.exec(st.Post, e)
 					e = po[0].env
 				}
+				setI(e)
 				u.checkInvariants(e, blk, "inv-keep", st.Pos(), lname)
 			case o.kind == oBreak && (o.label == "" || o.label == label):
+				setI(o.env)
 				u.exitSummary(o.env, blk, cut, lname, st.Pos())
+				clearI(o.env)
 				res = append(res, Outcome{env: o.env, kind: oNext})
 			default:
 				res = append(res, o)
